@@ -35,7 +35,9 @@ type lline struct {
 
 // label spellings: ordinary ones, ones that begin or end like opcodes and
 // pseudo-ops, and a predefined constant in lower case
-var respellings = []string{"a", "x1", "_t", "Loop", "i", "imp_2", "mover", "end1", "format", "data", "rofl", "equal", "org2", "coresize", "dat_1", "jmpx", "a_label_name_that_goes_on_for_quite_a_while_and_then_some_more_0123456789"}
+var respellings = []string{"a", "x1", "_t", "Loop", "i", "imp_2", "mover", "end1", "format", "data", "rofl", "equal", "org2", "coresize", "dat_1", "jmpx", "a_label_name_that_goes_on_for_quite_a_while_and_then_some_more_0123456789",
+	// letters outside ASCII, among them ones whose upper-case form is an ASCII letter (a label is not a mnemonic)
+	"größe", "ſub", "dıv", "ſpl", "dİv"}
 
 // layout lists the logical lines in default order.
 func layout(p *ref.AProg) []lline {
